@@ -144,10 +144,39 @@ pub fn main(args: &[String]) {
             viol.push(v);
         }
     };
+    // VALUES: key bytes that look like text artefacts or structures (CR LF / LF / spaces at the end, a BOM or dashes at
+    // the start, 0x00 / 0xFF runs, a DER header inside); for public keys, seeds are searched until the PUBLIC key ends so
+    let specials: Vec<[u8; 32]> = {
+        let mut v: Vec<[u8; 32]> = vec![];
+        let mut rng = rand_chacha::ChaChaRng::seed_from_u64(base_seed ^ 0x5eed);
+        let mut fresh = |rng: &mut rand_chacha::ChaChaRng| { let mut x = [0u8; 32]; rng.fill_bytes(&mut x); x };
+        for (at_end, pat) in [(true, &b"\r\n"[..]), (true, &b"\n"[..]), (true, &b"\r"[..]), (true, &b"\n\n"[..]), (true, &b" \t"[..]), (true, &b"-----"[..]),
+                              (false, &b"\xef\xbb\xbf"[..]), (false, &b"-----BEGIN"[..]), (false, &b"\x30\x2e\x02\x01"[..]), (false, &b"\r\n"[..])] {
+            let mut x = fresh(&mut rng);
+            if at_end { x[32 - pat.len()..].copy_from_slice(pat); } else { x[..pat.len()].copy_from_slice(pat); }
+            v.push(x);
+        }
+        v.push([0xff; 32]);
+        v.push([0x00; 32]);
+        // public keys ending with LF and with CR LF (X25519 and Ed25519): search
+        for want in [&b"\n"[..], &b"\r\n"[..]] {
+            for ed in [false, true] {
+                for _ in 0..400_000 {
+                    let x = fresh(&mut rng);
+                    let p = if ed { ed_public_bytes(&x) } else { *PublicKey::from(&StaticSecret::from(x)).as_bytes() };
+                    if p.ends_with(want) { v.push(x); break; }
+                }
+            }
+        }
+        v
+    };
     for s in 0..nseeds {
         let mut rng = rand_chacha::ChaChaRng::seed_from_u64(base_seed * 1_000_003 + s);
         let mut seed = [0u8; 32];
         rng.fill_bytes(&mut seed);
+        if (s as usize) < specials.len() {
+            seed = specials[s as usize];
+        }
         for b in &behs {
             runs += 1;
             let kind = b["kind"].as_str().unwrap();
